@@ -76,9 +76,17 @@ type c29Model struct {
 	BrokenMP map[osm.RelationID]bool
 }
 
-func c29Tags(t osm.Tags) []string {
+func c29Tags(t osm.Tags) []string { return c29TagsExcept(t, "") }
+
+// c29TagsExcept leaves out the OSM tag whose key is the feature's geometry key:
+// the geometry tag of a point / path is decided by the node's location / the
+// way's nodes, whatever the OSM element says under that key.
+func c29TagsExcept(t osm.Tags, geometryKey string) []string {
 	out := make([]string, 0, len(t))
 	for _, tag := range t {
+		if geometryKey != "" && tag.Key == geometryKey {
+			continue
+		}
 		out = append(out, strconv.Quote(c29MapKey(tag.Key))+"=s:"+strconv.Quote(tag.Value))
 	}
 	sort.Strings(out)
@@ -107,7 +115,7 @@ func c29Expect(in *c29Input) *c29Model {
 	// rule: node -> point
 	for _, n := range in.Nodes {
 		at := strconv.FormatInt(c29E7(n.Location.Lat), 10) + "," + strconv.FormatInt(c29E7(n.Location.Lng), 10)
-		add(&c29Feat{ID: c29PointID(n.ID), Kind: "point", Tags: c29Tags(n.Tags), At: at})
+		add(&c29Feat{ID: c29PointID(n.ID), Kind: "point", Tags: c29TagsExcept(n.Tags, b6.PointTag), At: at})
 		m.NodeLoc[c29PointID(n.ID)] = at
 		hasNode[n.ID] = true
 	}
@@ -123,7 +131,7 @@ func c29Expect(in *c29Input) *c29Model {
 			add(&c29Feat{ID: c29PathID(w.ID), Kind: "closed-path", Tags: []string{}, Nodes: nodes, CW: in.CW[w.ID]})
 			add(&c29Feat{ID: c29WayAreaID(w.ID), Kind: "way-area", Tags: c29Tags(w.Tags), Polys: [][]b6.FeatureID{{c29PathID(w.ID)}}})
 		} else {
-			add(&c29Feat{ID: c29PathID(w.ID), Kind: "open-path", Tags: c29Tags(w.Tags), Nodes: nodes})
+			add(&c29Feat{ID: c29PathID(w.ID), Kind: "open-path", Tags: c29TagsExcept(w.Tags, b6.PathTag), Nodes: nodes})
 		}
 	}
 	for i := range in.Relations {
